@@ -22,7 +22,7 @@ def match_known(known, ob):
     return None
 
 def make_replay(rep, ob, concrete=None):
-    d = os.path.join(ROOT, 'replays', rep.pid)
+    d = os.path.join(os.environ.get('VERIF_OUT', ROOT), 'replays', rep.pid)
     os.makedirs(d, exist_ok=True)
     fn = os.path.join(d, re.sub(r'[^A-Za-z0-9_.-]', '_', ob.name)[:120] + '.json')
     tag = None
